@@ -667,10 +667,26 @@ fn judge_c17(cx: &DeliveryCtx, out: &mut RunOut) {
     }
     // log records at debug level or above, emitted anywhere in the run
     let mut nrec = 0;
+    // A request that carries the correct signature and is refused all the same (key store down,
+    // stale clock): the errors and Debug renderings may echo what the client presented, but a log
+    // record at debug level or above may not contain it — whoever reads the log could replay it.
+    let mut log_only: Vec<Needle> = Vec::new();
+    if !cx.out.is_ok() {
+        if let (Some(exp), Some(pres)) = (&cx.detail.expected_signature, &cx.detail.presented_signature) {
+            if exp == pres && exp.len() == 64 {
+                log_only.push(Needle {
+                    what: "the correct signature of a refused request (as presented)".into(),
+                    bytes: exp.clone().into_bytes(),
+                });
+                out.probe("refused_with_correct_signature_log_scanned");
+            }
+        }
+    }
     for rec in cx.logs {
         if rec.level <= log::Level::Debug {
             nrec += 1;
             scan(out, &format!("log record at {}", rec.level), &rec.text, &needles);
+            scan(out, &format!("log record at {}", rec.level), &rec.text, &log_only);
         }
     }
     if nrec > 0 {
@@ -1095,6 +1111,17 @@ fn run_c18(t: &mut Tape, tier: Tier) -> RunOut {
         compare(&mut out, "repeated in the same process", i, &r);
     }
     out.probe("repeated_same_incarnation");
+    // (2b) with the process-wide log level lowered (this section is single-threaded): what the
+    // `log` facade lets through is no input of a validation
+    for lvl in [log::LevelFilter::Off, log::LevelFilter::Warn, log::LevelFilter::Debug] {
+        log::set_max_level(lvl);
+        for (i, it) in items.iter().enumerate() {
+            let r = eval_item(&accounts, it);
+            compare(&mut out, &format!("with the maximum log level at {:?}", lvl), i, &r);
+        }
+    }
+    log::set_max_level(log::LevelFilter::Trace);
+    out.probe("log_levels_varied");
     // (3) 2-8 other hash seeds
     let nseeds = 2 + t.below(4);
     for _ in 0..nseeds {
@@ -1761,12 +1788,19 @@ fn c13_build(m0: &Message, atoms: &[Atom], accounts: &[Account], node: &Node, va
             others: &[],
         };
         let ok = match a.name {
-            "clock-expired" => {
-                now_ns = m0.auth.instant_ns + refm::WINDOW_NS + 1 + lt.draw(3_600_000_000_000) as i128;
-                true
-            }
-            "clock-future" => {
-                now_ns = m0.auth.instant_ns - refm::WINDOW_NS - 1 - lt.draw(3_600_000_000_000) as i128;
+            "clock-expired" | "clock-future" => {
+                // past the bound by 1 ns, a fraction of a second, or up to an hour
+                let past = match lt.below(5) {
+                    0 => 1,
+                    1 => 1 + lt.draw(999_999_999) as i128,
+                    2 => 500_000_000,
+                    _ => 1 + lt.draw(3_600_000_000_000) as i128,
+                };
+                now_ns = if a.name == "clock-expired" {
+                    m0.auth.instant_ns + refm::WINDOW_NS + past
+                } else {
+                    m0.auth.instant_ns - refm::WINDOW_NS - past
+                };
                 true
             }
             "prov-error" => {
